@@ -2,3 +2,5 @@ SHIMS_ub += safeint_check
 VDRIVER := build/vd/vdriver
 FUZZERS += fuzz_nlread
 FUZZERS += fuzz_solread
+SHIMS_prod += sol_rt
+LIBS_sol_rt := -lrapidcheck
